@@ -175,7 +175,19 @@ impl Drop for Conn {
 
 impl Conn {
     pub fn open(port: u16) -> Conn {
-        let sock = TcpStream::connect(("127.0.0.1", port)).expect("connect");
+        let mut tries = 0;
+        let sock = loop {
+            match TcpStream::connect(("127.0.0.1", port)) {
+                Ok(s) => break s,
+                Err(e) => {
+                    tries += 1;
+                    if tries > 200 {
+                        panic!("cannot connect to the in-process server on port {}: {}", port, e);
+                    }
+                    std::thread::sleep(Duration::from_millis(5));
+                }
+            }
+        };
         sock.set_nodelay(true).unwrap();
         sock.set_read_timeout(Some(Duration::from_millis(QUIET_MS))).unwrap();
         let client_port = sock.local_addr().unwrap().port();
